@@ -85,6 +85,15 @@ type Lemma struct {
 	Uses       []string
 }
 
+// GlobalInv: an invariant over package-level state (e.g. the mlrval singletons), assumed at entry
+// of every function and after every havoc, checked at exit of verified functions that write the
+// fields it mentions.
+type GlobalInv struct {
+	Name   string
+	Pkg    string
+	Clause *Clause
+}
+
 type TableSpec struct {
 	Global     string
 	Pkg        string
@@ -105,6 +114,7 @@ type ContractSet struct {
 	Files     map[string]string // pkg -> contract file
 	Overlay   map[string][]byte
 	SpecDecls map[string]*specFunc // "pkg.name" -> decl (after load)
+	GInvs     []*GlobalInv
 	KFs       []KnownFinding
 	KFClauses map[int]*Clause       // index into KFs -> region clause
 	ClassDefs map[string]string      // "pkg.class" -> predicate text
@@ -149,10 +159,11 @@ func unchanged[T any](p *T) bool                       { return true }
 func allocated[T any](p *T) bool                       { return true }
 func funcIs(f interface{}, name string) bool           { return true }
 func inClass(f interface{}, class string) bool         { return true }
+func nothingModified() bool                            { return true }
 `
 
 var preludeNames = []string{"old", "forall", "exists", "forallp", "forallstr", "forallint", "imp", "ite", "addFits", "subFits", "mulFits", "isNaN", "isInf", "sameFloat", "fresh",
-	"typeIs", "streq", "exactDiv", "floorDiv", "popcount", "fabs", "ffloor", "fceil", "fround", "ftrunc", "reachable", "unchanged", "allocated", "funcIs", "inClass"}
+	"typeIs", "streq", "exactDiv", "floorDiv", "popcount", "fabs", "ffloor", "fceil", "fround", "ftrunc", "reachable", "unchanged", "allocated", "funcIs", "inClass", "nothingModified"}
 
 func pkgDirOf(short string) string { return filepath.Join(repoDir, "pkg", short) }
 
@@ -303,6 +314,13 @@ func (cs *ContractSet) parseFile(file string) error {
 			lm := &Lemma{Name: strings.TrimSpace(rest[:i]), Pkg: pkg, Properties: curProps, Mode: ModeInt}
 			lm.Clause = mk("lemma", strings.TrimSpace(rest[i+1:]))
 			cs.Lemmas = append(cs.Lemmas, lm)
+			cur = nil
+		case "ginv":
+			i := strings.Index(rest, ":")
+			if i < 0 {
+				return fmt.Errorf("%s:%d: bad ginv", file, ln+1)
+			}
+			cs.GInvs = append(cs.GInvs, &GlobalInv{Name: strings.TrimSpace(rest[:i]), Pkg: pkg, Clause: mk("ginv", strings.TrimSpace(rest[i+1:]))})
 			cur = nil
 		case "lemma-encoding":
 			if len(cs.Lemmas) > 0 && rest == "bv" {
@@ -560,6 +578,9 @@ func (cs *ContractSet) buildOverlay() error {
 	for _, t := range cs.Tables {
 		pkgs[t.Pkg] = true
 	}
+	for _, gi := range cs.GInvs {
+		pkgs[gi.Pkg] = true
+	}
 	for pkg := range pkgs {
 		dir := pkgDirOf(pkg)
 		parsed, err := parser.ParseDir(fset, dir, func(fi os.FileInfo) bool {
@@ -693,6 +714,18 @@ func (cs *ContractSet) buildOverlay() error {
 				}
 			}
 		}
+		for _, gi := range cs.GInvs {
+			if gi.Pkg != pkg {
+				continue
+			}
+			e, err := parseSugared(gi.Clause.Text)
+			if err != nil {
+				return fmt.Errorf("%s:%d: %v", gi.Clause.File, gi.Clause.Line, err)
+			}
+			n++
+			gi.Clause.Name = fmt.Sprintf("verif__ginv_%d", n)
+			fmt.Fprintf(&b, "func %s() bool { return %s }\n", gi.Clause.Name, exprString(fset, e))
+		}
 		for _, lm := range cs.Lemmas {
 			if lm.Pkg != pkg {
 				continue
@@ -772,6 +805,11 @@ func (cs *ContractSet) resolve(l *Loaded) []string {
 						if cl.Name == fd.Name.Name && strings.HasPrefix(cl.Name, "verif__kfregion") {
 							// names are unique per package; check the package through the contract
 							cl.Expr, cl.Info = ret, p.TypesInfo
+						}
+					}
+					for _, gi := range cs.GInvs {
+						if gi.Pkg == short && gi.Clause.Name == fd.Name.Name {
+							gi.Clause.Expr, gi.Clause.Info = ret, p.TypesInfo
 						}
 					}
 					for _, lm := range cs.Lemmas {
